@@ -3,7 +3,7 @@
 From Coq Require Import List String Ascii ZArith Bool Arith Lia.
 Require Import MD.Select.Syntax MD.Select.Model.
 Import ListNotations.
-Local Open Scope string_scope.
+Local Open Scope list_scope.
 
 (* ------------------------------------------------------------------ induction principle for expr *)
 Section ExprInd.
@@ -44,7 +44,7 @@ Definition op_kind (cfg : config) (o : string) : option kind :=
 (* [k l1 to l3 ...] is taken by range_condition, so an in-list never has that shape *)
 Definition inlist_not_range (ls : list lit) : Prop :=
   match ls with
-  | _ :: LWord x :: _ :: _ => x <> "to"
+  | _ :: LWord x :: _ :: _ => x <> "to"%string
   | _ => True
   end.
 
@@ -135,3 +135,463 @@ Section Levels.
         * destruct (NoDup_app_inv _ _ Hnd) as [Hnd' _]. rewrite (IH o i' l Hnd' Hn Hm). reflexivity.
   Qed.
 End Levels.
+
+(* ------------------------------------------------------------------ combinator equations *)
+Lemma p_unary_cons : forall ops lower o ts,
+  p_unary ops lower (TOp o :: ts) =
+  if mem_str o ops then
+    match p_unary ops lower ts with
+    | Some (e, r) => Some (EUn o e, r)
+    | None => lower (TOp o :: ts)
+    end
+  else lower (TOp o :: ts).
+Proof. reflexivity. Qed.
+
+Lemma p_unary_other : forall ops lower ts,
+  (forall o ts', ts = TOp o :: ts' -> mem_str o ops = false) ->
+  p_unary ops lower ts = lower ts.
+Proof.
+  intros ops lower ts H. destruct ts as [|t ts']; [reflexivity|].
+  destruct t; try reflexivity. rewrite p_unary_cons. rewrite (H s ts' eq_refl). reflexivity.
+Qed.
+
+Lemma p_levels_snoc : forall pre l atom, p_levels (pre ++ [l]) atom = p_level l (p_levels pre atom).
+Proof. intros. unfold p_levels. rewrite fold_left_app. reflexivity. Qed.
+
+Lemma firstn_snoc {A} : forall (l : list A) i x, nth_error l i = Some x -> firstn (S i) l = firstn i l ++ [x].
+Proof.
+  induction l as [|y l IH]; intros i x H.
+  - destruct i; discriminate.
+  - destruct i as [|i'].
+    + simpl in H. injection H as ->. reflexivity.
+    + simpl in H. change (firstn (S (S i')) (y :: l)) with (y :: firstn (S i') l).
+      rewrite (IH i' x H). reflexivity.
+Qed.
+
+Lemma bin_loop_stop : forall ops lower n r,
+  (forall o r', r = TOp o :: r' -> mem_str o ops = false) ->
+  bin_loop ops lower n r = ([], r).
+Proof.
+  intros ops lower n r H. destruct n; [reflexivity|]. simpl.
+  destruct r as [|t r']; [reflexivity|]. destruct t; try reflexivity.
+  rewrite (H s r' eq_refl). reflexivity.
+Qed.
+
+Section Main.
+  Variable cfg : config.
+  Hypothesis Hnd : NoDup (all_ops cfg).
+  Let lvs := levels cfg.
+  Let n := List.length lvs.
+
+  Definition cont_ok (k : nat) (r : list token) : Prop :=
+    match r with
+    | [] => True
+    | t :: _ => tok_lit t = None /\ (forall o, t = TOp o -> k < level_of_op lvs o)
+    end.
+
+  Definition head_ok (j : nat) (ts : list token) : Prop :=
+    forall o ts', ts = TOp o :: ts' -> level_of_op lvs o <= j.
+
+  Lemma cont_ok_mono : forall k k' r, k' <= k -> cont_ok k r -> cont_ok k' r.
+  Proof.
+    intros k k' r Hle H. destruct r as [|t r']; [exact I|]. destruct H as [H1 H2]. split; [assumption|].
+    intros o Ho. specialize (H2 o Ho). lia.
+  Qed.
+
+  Lemma level_mem : forall i l o, nth_error lvs i = Some l ->
+    (mem_str o (lv_ops l) = true <-> level_of_op lvs o = S i).
+  Proof.
+    intros i l o Hn. split.
+    - intros Hm. eapply nth_level_of_op; eauto.
+    - intros Hl. destruct (level_of_op_nth lvs o i Hl) as [l' [Hn' Hm]]. congruence.
+  Qed.
+
+  Definition atomf (f : nat) : parser := p_atom cfg (parse cfg f).
+  Definition P (k f : nat) : parser := p_levels (firstn k lvs) (atomf f).
+
+  Lemma parse_S : forall f, parse cfg (S f) = P n f.
+  Proof. intros f. unfold P, n. rewrite firstn_all. reflexivity. Qed.
+
+  Lemma P_S : forall i f l, nth_error lvs i = Some l -> P (S i) f = p_level l (P i f).
+  Proof. intros i f l H. unfold P. rewrite (firstn_snoc lvs i l H). apply p_levels_snoc. Qed.
+
+  (* a result obtained at level j is the result at every looser level k, if neither the first token nor
+     the continuation starts an operator of the levels in between *)
+  Lemma lift : forall f ts e r j k, j <= k -> k <= n ->
+    P j f ts = Some (e, r) -> head_ok j ts -> cont_ok k r -> P k f ts = Some (e, r).
+  Proof.
+    intros f ts e r j k Hjk. induction Hjk as [|k Hjk IH]; intros Hkn HP Hhead Hcont; [assumption|].
+    assert (Hk : k < List.length lvs) by (unfold n in Hkn; lia).
+    destruct (nth_error lvs k) as [l|] eqn:Hnth; [|apply nth_error_None in Hnth; lia].
+    rewrite (P_S k f l Hnth).
+    assert (IH' : P k f ts = Some (e, r)).
+    { apply IH; [lia|assumption|assumption|eapply cont_ok_mono; [|eassumption]; lia]. }
+    assert (Hstop : forall o r', r = TOp o :: r' -> mem_str o (lv_ops l) = false).
+    { intros o r' ->. destruct (mem_str o (lv_ops l)) eqn:Hm; [|reflexivity].
+      apply (level_mem k l o Hnth) in Hm. destruct Hcont as [_ Hc]. specialize (Hc o eq_refl). lia. }
+    unfold p_level. destruct (lv_kind l).
+    - rewrite p_unary_other; [assumption|].
+      intros o ts' ->. destruct (mem_str o (lv_ops l)) eqn:Hm; [|reflexivity].
+      apply (level_mem k l o Hnth) in Hm. specialize (Hhead o ts' eq_refl). lia.
+    - unfold p_binary. rewrite IH'. rewrite (bin_loop_stop _ _ _ _ Hstop). reflexivity.
+    - unfold p_regex. rewrite IH'. rewrite (bin_loop_stop _ _ _ _ Hstop). reflexivity.
+  Qed.
+
+  (* ---------------- the printer in equational form *)
+  Definition wrap (k : nat) (a : expr) : list token :=
+    if Nat.leb (expr_level cfg a) k then print cfg a else paren (print cfg a).
+  Fixpoint print_rest (k : nat) (l : list (string * expr)) : list token :=
+    match l with
+    | [] => []
+    | (o, a) :: l' => TOp o :: wrap k a ++ print_rest k l'
+    end.
+  Definition wdepth (k : nat) (a : expr) : nat :=
+    if Nat.leb (expr_level cfg a) k then pdepth cfg a else S (pdepth cfg a).
+  Fixpoint rest_depth (k : nat) (l : list (string * expr)) : nat :=
+    match l with
+    | [] => 0
+    | (_, a) :: l' => Nat.max (wdepth k a) (rest_depth k l')
+    end.
+
+  Lemma print_bin : forall e0 rest,
+    print cfg (EBin e0 rest) =
+    wrap (pred (expr_level cfg (EBin e0 rest))) e0 ++ print_rest (pred (expr_level cfg (EBin e0 rest))) rest.
+  Proof.
+    intros e0 rest. cbn [print]. f_equal. generalize (pred (expr_level cfg (EBin e0 rest))) as k. intros k.
+    induction rest as [|[o a] l IH]; [reflexivity|]. cbn [print_rest]. rewrite <- IH. reflexivity.
+  Qed.
+
+  Lemma pdepth_bin : forall e0 rest,
+    pdepth cfg (EBin e0 rest) =
+    Nat.max (wdepth (pred (expr_level cfg (EBin e0 rest))) e0)
+            (rest_depth (pred (expr_level cfg (EBin e0 rest))) rest).
+  Proof.
+    intros e0 rest. cbn [pdepth]. f_equal. generalize (pred (expr_level cfg (EBin e0 rest))) as k. intros k.
+    induction rest as [|[o a] l IH]; [reflexivity|]. cbn [rest_depth]. rewrite <- IH. reflexivity.
+  Qed.
+
+  Lemma print_un : forall o a, print cfg (EUn o a) = TOp o :: wrap (level_of_op lvs o) a.
+  Proof. reflexivity. Qed.
+  Lemma print_rx : forall o s p,
+    print cfg (ERx o s p) = wrap (pred (level_of_op lvs o)) s ++ TOp o :: wrap (pred (level_of_op lvs o)) p.
+  Proof. reflexivity. Qed.
+
+  Lemma op_kind_level : forall o K, op_kind cfg o = Some K ->
+    exists i l, level_of_op lvs o = S i /\ nth_error lvs i = Some l /\ lv_kind l = K /\ S i <= n.
+  Proof.
+    intros o K H. unfold op_kind in H. fold lvs in H. destruct (level_of_op lvs o) as [|i] eqn:Hl; [discriminate|].
+    destruct (nth_error lvs i) as [l|] eqn:Hn; [|discriminate]. simpl in H. injection H as H.
+    exists i, l. repeat split; try assumption.
+    assert (i < List.length lvs) by (apply nth_error_Some; congruence). unfold n. lia.
+  Qed.
+
+  (* the first token of a printed tree is no operator of a level looser than the tree's own *)
+  Lemma print_head : forall e, wf cfg e ->
+    exists t ts, print cfg e = t :: ts /\ (forall o, t = TOp o -> level_of_op lvs o <= expr_level cfg e).
+  Proof.
+    induction e as [k|l|k lo hi|k ls|o a IHa|e0 rest IHe0 IHrest|o s p IHs IHp] using expr_ind'; intros Hwf.
+    - exists (TWord k), []. split; [reflexivity|]. intros o Ho; discriminate.
+    - exists (lit_tok l), []. split; [reflexivity|]. intros o Ho. destruct l; discriminate.
+    - eexists _, _. split; [reflexivity|]. intros o Ho; discriminate.
+    - eexists _, _. split; [reflexivity|]. intros o Ho; discriminate.
+    - eexists _, _. split; [reflexivity|]. intros o' Ho. injection Ho as ->. cbn [expr_level]. fold lvs. lia.
+    - destruct Hwf as [Hne [Hw0 Hall]]. rewrite print_bin.
+      set (k := pred (expr_level cfg (EBin e0 rest))). unfold wrap.
+      destruct (Nat.leb (expr_level cfg e0) k) eqn:Hle.
+      + destruct (IHe0 Hw0) as [t [ts [Hp Ht]]]. rewrite Hp. eexists _, _. split; [reflexivity|].
+        intros o Ho. specialize (Ht o Ho). apply Nat.leb_le in Hle. unfold k in Hle. lia.
+      + eexists _, _. split; [reflexivity|]. intros o Ho; discriminate.
+    - destruct Hwf as [Hk [Hws Hwp]]. rewrite print_rx. unfold wrap.
+      destruct (Nat.leb (expr_level cfg s) (pred (level_of_op lvs o))) eqn:Hle.
+      + destruct (IHs Hws) as [t [ts [Hp Ht]]]. rewrite Hp. eexists _, _. split; [reflexivity|].
+        intros o' Ho. specialize (Ht o' Ho). apply Nat.leb_le in Hle. cbn [expr_level]. fold lvs. lia.
+      + eexists _, _. split; [reflexivity|]. intros o' Ho; discriminate.
+  Qed.
+
+  (* ---------------- atoms *)
+  Definition p_kw (w : string) (r : list token) : option (expr * list token) :=
+    match r with
+    | t1 :: TWord x :: t2 :: r' =>
+        match tok_lit t1, tok_lit t2 with
+        | Some l1, Some l2 => if String.eqb x "to" then Some (ERange w l1 l2, r') else p_inlist w r
+        | _, _ => p_inlist w r
+        end
+    | _ => p_inlist w r
+    end.
+
+  Lemma p_atom_selkw : forall nested w r, is_selkw cfg w = true ->
+    p_atom cfg nested (TWord w :: r) = p_kw w r.
+  Proof. intros nested w r H. unfold p_atom. rewrite H. reflexivity. Qed.
+
+  Lemma tok_lit_lit_tok : forall l, tok_lit (lit_tok l) = Some l.
+  Proof. destruct l; reflexivity. Qed.
+
+  Lemma take_lits_app : forall ls r, cont_ok 0 r -> take_lits (map lit_tok ls ++ r) = (ls, r).
+  Proof.
+    induction ls as [|l ls IH]; intros r Hc.
+    - simpl. destruct r as [|t r']; [reflexivity|]. destruct Hc as [Hc _]. simpl. rewrite Hc. reflexivity.
+    - simpl. rewrite tok_lit_lit_tok. rewrite (IH r Hc). reflexivity.
+  Qed.
+
+  Lemma p_kw_bare : forall w r, cont_ok 0 r -> p_kw w r = Some (EKw w, r).
+  Proof.
+    intros w r Hc. assert (Hin : p_inlist w r = Some (EKw w, r)).
+    { unfold p_inlist. change r with (map lit_tok [] ++ r). rewrite (take_lits_app [] r Hc). reflexivity. }
+    unfold p_kw. destruct r as [|t1 r1]; [assumption|]. destruct Hc as [Hc _].
+    destruct r1 as [|t2 r2]; [assumption|]. destruct t2; try assumption.
+    destruct r2 as [|t3 r3]; [assumption|]. rewrite Hc. assumption.
+  Qed.
+
+  Lemma p_kw_range : forall w lo hi r,
+    p_kw w (lit_tok lo :: TWord "to" :: lit_tok hi :: r) = Some (ERange w lo hi, r).
+  Proof. intros. unfold p_kw. rewrite !tok_lit_lit_tok. reflexivity. Qed.
+
+  Lemma p_kw_inlist : forall w ls r, ls <> [] -> inlist_not_range ls -> cont_ok 0 r ->
+    p_kw w (map lit_tok ls ++ r) = Some (EInList w ls, r).
+  Proof.
+    intros w ls r Hne Hnr Hc.
+    assert (Hin : p_inlist w (map lit_tok ls ++ r) = Some (EInList w ls, r)).
+    { unfold p_inlist. rewrite (take_lits_app ls r Hc). destruct ls; [contradiction|reflexivity]. }
+    unfold p_kw. destruct ls as [|l1 ls1]; [contradiction|].
+    cbn [map app]. destruct ls1 as [|l2 ls2].
+    - (* one literal: the second token is the continuation's head *)
+      cbn [map app]. destruct r as [|t r']; [exact Hin|]. destruct Hc as [Hc _].
+      destruct t; try exact Hin; discriminate.
+    - cbn [map app]. destruct l2 as [x|x|x]; cbn [lit_tok]; try exact Hin.
+      destruct ls2 as [|l3 ls3].
+      + cbn [map app]. destruct r as [|t r']; [exact Hin|]. destruct Hc as [Hc _].
+        rewrite tok_lit_lit_tok, Hc. exact Hin.
+      + cbn [map app]. rewrite !tok_lit_lit_tok. simpl in Hnr.
+        destruct (String.eqb x "to") eqn:Hx; [apply String.eqb_eq in Hx; contradiction|exact Hin].
+  Qed.
+
+  (* ---------------- well-formedness in equational form *)
+  Fixpoint wf_rest (lv : nat) (l : list (string * expr)) : Prop :=
+    match l with
+    | [] => True
+    | (o, a) :: l' =>
+        op_kind cfg o = Some KBinary /\ level_of_op lvs o = lv /\ wf cfg a /\ wf_rest lv l'
+    end.
+
+  Lemma wf_bin : forall e0 rest,
+    wf cfg (EBin e0 rest) <-> rest <> [] /\ wf cfg e0 /\ wf_rest (expr_level cfg (EBin e0 rest)) rest.
+  Proof.
+    intros e0 rest. cbn [wf]. fold lvs. generalize (expr_level cfg (EBin e0 rest)) as lv. intros lv.
+    assert (H : forall l,
+      (fix all (l : list (string * expr)) : Prop :=
+         match l with
+         | [] => True
+         | (o, a) :: l' => op_kind cfg o = Some KBinary /\ level_of_op lvs o = lv /\ wf cfg a /\ all l'
+         end) l <-> wf_rest lv l).
+    { induction l as [|[o a] l IH]; [reflexivity|]. cbn [wf_rest]. rewrite IH. reflexivity. }
+    rewrite H. reflexivity.
+  Qed.
+
+  Lemma level_le_n : forall o, level_of_op lvs o <= n.
+  Proof.
+    intros o. destruct (level_of_op lvs o) as [|i] eqn:H; [lia|].
+    destruct (level_of_op_nth lvs o i H) as [l [Hn _]].
+    assert (i < List.length lvs) by (apply nth_error_Some; congruence). unfold n. lia.
+  Qed.
+
+  Lemma expr_level_le_n : forall e, expr_level cfg e <= n.
+  Proof.
+    intros e. destruct e; cbn [expr_level]; try lia; try apply level_le_n.
+    destruct rest as [|[o a] rest']; [lia|apply level_le_n].
+  Qed.
+
+  (* ---------------- the main induction *)
+  Definition good (a : expr) : Prop :=
+    forall f k r, expr_level cfg a <= k -> k <= n -> pdepth cfg a <= f -> cont_ok k r ->
+      P k f (print cfg a ++ r) = Some (a, r).
+
+  Lemma P_0 : forall f, P 0 f = atomf f.
+  Proof. reflexivity. Qed.
+
+  Lemma head_ok_wrap : forall a b r, wf cfg a -> head_ok b (wrap b a ++ r).
+  Proof.
+    intros a b r Hwf o ts' H. unfold wrap in H. destruct (Nat.leb (expr_level cfg a) b) eqn:Hle.
+    - destruct (print_head a Hwf) as [t [ts [Hp Ht]]]. rewrite Hp in H. injection H as -> _.
+      specialize (Ht o eq_refl). apply Nat.leb_le in Hle. lia.
+    - discriminate.
+  Qed.
+
+  Lemma operand : forall a, wf cfg a -> good a -> forall b f r, b <= n -> wdepth b a <= f -> cont_ok b r ->
+    P b f (wrap b a ++ r) = Some (a, r).
+  Proof.
+    intros a Hwf Hg b f r Hb Hd Hc. pose proof (head_ok_wrap a b r Hwf) as Hh.
+    unfold wrap, wdepth in *. destruct (Nat.leb (expr_level cfg a) b) eqn:Hle.
+    - apply Nat.leb_le in Hle. apply Hg; assumption.
+    - destruct f as [|f']; [lia|].
+      assert (H0 : P 0 (S f') (paren (print cfg a) ++ r) = Some (a, r)).
+      { rewrite P_0. unfold atomf, paren. cbn [app p_atom]. rewrite parse_S. rewrite <- app_assoc. cbn [app].
+        rewrite (Hg f' n (TRP :: r)); [reflexivity|apply expr_level_le_n|lia|lia|].
+        split; [reflexivity|intros o Ho; discriminate]. }
+      apply (lift (S f') _ a r 0 b); [lia|assumption|exact H0| |assumption].
+      intros o ts' H. unfold paren in H. cbn [app] in H. discriminate.
+  Qed.
+
+  Lemma print_rest_length : forall k rest, List.length rest <= List.length (print_rest k rest).
+  Proof.
+    induction rest as [|[o a] l IH]; [simpl; lia|]. cbn [print_rest List.length]. rewrite app_length. lia.
+  Qed.
+
+  Lemma bin_loop_rest : forall i l f, nth_error lvs i = Some l -> i <= n ->
+    forall rest m r,
+      Forall (fun p => wf cfg (snd p) /\ good (snd p) /\ mem_str (fst p) (lv_ops l) = true) rest ->
+      List.length rest <= m -> rest_depth i rest <= f -> cont_ok (S i) r ->
+      bin_loop (lv_ops l) (P i f) m (print_rest i rest ++ r) = (rest, r).
+  Proof.
+    intros i l f Hn Hi. induction rest as [|[o a] rest IH]; intros m r HF Hm Hd Hc.
+    - cbn [print_rest app]. apply bin_loop_stop. intros o r' ->.
+      destruct (mem_str o (lv_ops l)) eqn:Hmem; [|reflexivity].
+      apply (level_mem i l o Hn) in Hmem. destruct Hc as [_ Hc]. specialize (Hc o eq_refl). lia.
+    - inversion HF as [|? ? [Hwa [Hga Hmem]] HF']; subst. cbn [fst snd] in *.
+      destruct m as [|m']; [simpl in Hm; lia|].
+      cbn [print_rest app bin_loop]. rewrite Hmem. cbn [rest_depth] in Hd.
+      rewrite <- app_assoc.
+      rewrite (operand a Hwa Hga i f (print_rest i rest ++ r)); [| assumption | lia | ].
+      + rewrite (IH m' r HF'); [reflexivity|simpl in Hm; lia|lia|assumption].
+      + destruct rest as [|[o' a'] rest'].
+        * cbn [print_rest app]. eapply cont_ok_mono; [|eassumption]. lia.
+        * cbn [print_rest app]. split; [reflexivity|]. intros o'' Ho. injection Ho as <-.
+          inversion HF' as [|? ? [_ [_ Hmem']] _]; subst. cbn [fst] in Hmem'.
+          apply (level_mem i l o' Hn) in Hmem'. lia.
+  Qed.
+
+  Lemma wf_rest_Forall : forall lv i l rest, lv = S i -> nth_error lvs i = Some l ->
+    wf_rest lv rest -> Forall (fun p => good (snd p)) rest ->
+    Forall (fun p => wf cfg (snd p) /\ good (snd p) /\ mem_str (fst p) (lv_ops l) = true) rest.
+  Proof.
+    intros lv i l rest Hlv Hn. induction rest as [|[o a] rest IH]; intros Hw Hg; [constructor|].
+    destruct Hw as [Hk [Hl [Hwa Hw']]]. inversion Hg as [|? ? Hga Hg']; subst. constructor.
+    - cbn [fst snd] in *. repeat split; try assumption. apply (level_mem i l o Hn). assumption.
+    - apply IH; assumption.
+  Qed.
+
+  Lemma goods : forall lv rest, wf_rest lv rest ->
+    Forall (fun p => wf cfg (snd p) -> good (snd p)) rest -> Forall (fun p => good (snd p)) rest.
+  Proof.
+    intros lv rest. induction rest as [|[o a] rest IH]; intros Hw HF; [constructor|].
+    destruct Hw as [_ [_ [Hwa Hw']]]. inversion HF as [|? ? Hx Hxs]; subst.
+    constructor; [apply Hx; assumption|apply IH; assumption].
+  Qed.
+
+  Theorem print_parse_levels : forall e, wf cfg e -> good e.
+  Proof.
+    induction e as [k|l|k lo hi|k ls|o a IHa|e0 rest IHe0 IHrest|o s p IHs IHp] using expr_ind';
+      intros Hwf f kk r Hlev Hkn Hdep Hc.
+    - (* keyword *)
+      cbn [wf] in Hwf. apply (lift f _ (EKw k) r 0 kk); [lia|assumption| | |assumption].
+      + rewrite P_0. unfold atomf. cbn [print app]. rewrite (p_atom_selkw _ k r Hwf).
+        apply p_kw_bare. eapply cont_ok_mono; [|eassumption]. lia.
+      + intros o ts' H. discriminate.
+    - (* literal *)
+      apply (lift f _ (ELit l) r 0 kk); [lia|assumption| | |assumption].
+      + rewrite P_0. unfold atomf. cbn [print app]. destruct l as [w|w|w]; cbn [lit_tok p_atom]; try reflexivity.
+        cbn [wf] in Hwf. rewrite Hwf. reflexivity.
+      + intros o ts' H. destruct l; discriminate.
+    - (* range *)
+      cbn [wf] in Hwf. apply (lift f _ (ERange k lo hi) r 0 kk); [lia|assumption| | |assumption].
+      + rewrite P_0. unfold atomf. cbn [print app]. rewrite (p_atom_selkw _ k _ Hwf). apply p_kw_range.
+      + intros o ts' H. discriminate.
+    - (* in-list *)
+      cbn [wf] in Hwf. destruct Hwf as [Hk [Hne Hnr]].
+      apply (lift f _ (EInList k ls) r 0 kk); [lia|assumption| | |assumption].
+      + rewrite P_0. unfold atomf. cbn [print app]. rewrite (p_atom_selkw _ k _ Hk).
+        apply p_kw_inlist; try assumption. eapply cont_ok_mono; [|eassumption]. lia.
+      + intros o ts' H. discriminate.
+    - (* unary *)
+      cbn [wf] in Hwf. destruct Hwf as [Hk Hwa].
+      destruct (op_kind_level o KUnary Hk) as [i [l [Hl [Hn [Hkind Hin]]]]].
+      cbn [expr_level] in Hlev. fold lvs in Hlev. rewrite Hl in Hlev.
+      apply (lift f _ (EUn o a) r (S i) kk); [assumption|assumption| | |assumption].
+      + rewrite print_un, Hl. cbn [app].
+        assert (Hrec : P (S i) f (wrap (S i) a ++ r) = Some (a, r)).
+        { apply operand; [assumption|apply IHa; assumption|assumption| |eapply cont_ok_mono; [|eassumption]; assumption].
+          cbn [pdepth] in Hdep. fold lvs in Hdep. rewrite Hl in Hdep. exact Hdep. }
+        rewrite (P_S i f l Hn) in *. unfold p_level in *. rewrite Hkind in *.
+        rewrite p_unary_cons. assert (Hm : mem_str o (lv_ops l) = true) by (apply (level_mem i l o Hn); assumption).
+        rewrite Hm, Hrec. reflexivity.
+      + intros o' ts' H. rewrite print_un in H. cbn [app] in H. injection H as <- _. lia.
+    - (* binary chain *)
+      apply wf_bin in Hwf. destruct Hwf as [Hne [Hw0 Hwr]].
+      destruct rest as [|[o1 a1] rest']; [contradiction|].
+      pose proof Hwr as Hwr0. destruct Hwr0 as [Hk1 [Hl1 _]].
+      destruct (op_kind_level o1 KBinary Hk1) as [i [l [Hl [Hn [Hkind Hin]]]]].
+      assert (Hlv : expr_level cfg (EBin e0 ((o1, a1) :: rest')) = S i) by (cbn [expr_level]; fold lvs; assumption).
+      rewrite Hlv in Hlev.
+      apply (lift f _ (EBin e0 ((o1, a1) :: rest')) r (S i) kk); [assumption|assumption| | |assumption].
+      + rewrite print_bin. rewrite pdepth_bin in Hdep. rewrite Hlv in *. cbn [pred] in *.
+        set (rest := (o1, a1) :: rest') in *.
+        rewrite (P_S i f l Hn). unfold p_level. rewrite Hkind. unfold p_binary.
+        rewrite <- app_assoc.
+        rewrite (operand e0 Hw0 (IHe0 Hw0) i f (print_rest i rest ++ r)); [|lia|lia|].
+        * rewrite (bin_loop_rest i l f Hn ltac:(lia) rest _ r); [reflexivity| | | |].
+          -- eapply wf_rest_Forall; [reflexivity|eassumption|eassumption|].
+             eapply goods; eassumption.
+          -- rewrite app_length. pose proof (print_rest_length i rest). lia.
+          -- lia.
+          -- eapply cont_ok_mono; [|eassumption]. assumption.
+        * unfold rest. cbn [print_rest app]. split; [reflexivity|]. intros o' Ho. injection Ho as <-. lia.
+      + rewrite print_bin. rewrite Hlv. cbn [pred]. intros o' ts' H.
+        rewrite <- app_assoc in H.
+        pose proof (head_ok_wrap e0 i (print_rest i ((o1, a1) :: rest') ++ r) Hw0 o' ts' H). lia.
+    - (* regex *)
+      cbn [wf] in Hwf. destruct Hwf as [Hk [Hws Hwp]].
+      destruct (op_kind_level o KRegex Hk) as [i [l [Hl [Hn [Hkind Hin]]]]].
+      cbn [expr_level] in Hlev. fold lvs in Hlev. rewrite Hl in Hlev.
+      apply (lift f _ (ERx o s p) r (S i) kk); [assumption|assumption| | |assumption].
+      + rewrite print_rx, Hl. cbn [pred]. cbn [pdepth] in Hdep. fold lvs in Hdep. rewrite Hl in Hdep. cbn [pred] in Hdep.
+        fold (wdepth i s) in Hdep. fold (wdepth i p) in Hdep.
+        rewrite (P_S i f l Hn). unfold p_level. rewrite Hkind. unfold p_regex.
+        rewrite <- app_assoc. change ((TOp o :: wrap i p) ++ r) with (TOp o :: wrap i p ++ r).
+        rewrite (operand s Hws (IHs Hws) i f (TOp o :: wrap i p ++ r)); [|lia|lia|].
+        * assert (Hm : mem_str o (lv_ops l) = true) by (apply (level_mem i l o Hn); assumption).
+          assert (Hb : forall m, 1 <= m -> bin_loop (lv_ops l) (P i f) m (TOp o :: wrap i p ++ r) = ([(o, p)], r)).
+          { intros m Hm1. pose proof (bin_loop_rest i l f Hn ltac:(lia) [(o, p)] m r) as Hb.
+            cbn [print_rest] in Hb. rewrite app_nil_r in Hb. cbn [app] in Hb. apply Hb.
+            - constructor; [|constructor]. cbn [fst snd]. repeat split; [assumption|apply IHp; assumption|assumption].
+            - cbn [List.length]. lia.
+            - cbn [rest_depth]. lia.
+            - eapply cont_ok_mono; [|eassumption]. assumption. }
+          rewrite Hb; [reflexivity|]. cbn [List.length]. lia.
+        * cbn [app]. split; [reflexivity|]. intros o' Ho. injection Ho as <-. lia.
+      + rewrite print_rx, Hl. cbn [pred]. intros o' ts' H.
+        rewrite <- app_assoc in H.
+        pose proof (head_ok_wrap s i ((TOp o :: wrap i p) ++ r) Hws o' ts' H). lia.
+  Qed.
+
+  Lemma wdepth_le : forall k a, pdepth cfg a <= List.length (print cfg a) -> wdepth k a <= List.length (wrap k a).
+  Proof.
+    intros k a H. unfold wdepth, wrap. destruct (Nat.leb (expr_level cfg a) k); [assumption|].
+    unfold paren. cbn [List.length]. rewrite app_length. cbn [List.length]. lia.
+  Qed.
+
+  Lemma pdepth_le_length : forall e, pdepth cfg e <= List.length (print cfg e).
+  Proof.
+    induction e as [k|l|k lo hi|k ls|o a IHa|e0 rest IHe0 IHrest|o s p IHs IHp] using expr_ind';
+      try (cbn [pdepth]; lia).
+    - change (pdepth cfg (EUn o a)) with (wdepth (level_of_op lvs o) a). rewrite print_un. cbn [List.length].
+      pose proof (wdepth_le (level_of_op lvs o) a IHa). lia.
+    - rewrite pdepth_bin, print_bin, app_length.
+      generalize (pred (expr_level cfg (EBin e0 rest))) as k. intros k.
+      pose proof (wdepth_le k e0 IHe0).
+      assert (rest_depth k rest <= List.length (print_rest k rest)).
+      { induction IHrest as [|[o a] rs Hx Hxs IH]; [simpl; lia|]. cbn [rest_depth print_rest List.length].
+        rewrite app_length. pose proof (wdepth_le k a Hx). lia. }
+      lia.
+    - change (pdepth cfg (ERx o s p)) with (Nat.max (wdepth (pred (level_of_op lvs o)) s) (wdepth (pred (level_of_op lvs o)) p)).
+      rewrite print_rx, app_length. cbn [List.length].
+      pose proof (wdepth_le (pred (level_of_op lvs o)) s IHs). pose proof (wdepth_le (pred (level_of_op lvs o)) p IHp). lia.
+  Qed.
+
+  (* parse (print e) = e : the tokens printed with minimal parentheses parse back to the same tree *)
+  Theorem parse_print_tokens : forall e, wf cfg e -> parse_all cfg (print cfg e) = Some e.
+  Proof.
+    intros e Hwf. unfold parse_all. rewrite parse_S.
+    pose proof (print_parse_levels e Hwf (List.length (print cfg e)) n [] (expr_level_le_n e) (le_n _)
+                  (pdepth_le_length e) I) as H.
+    rewrite app_nil_r in H. rewrite H. reflexivity.
+  Qed.
+End Main.
